@@ -65,5 +65,104 @@ TEXTS["C18"] = {
     "note": "Alpha handling off as the property states; kernels > 8192 taps are outside the verdict domain.",
     "technique": "runtime monitoring: range oracle and metamorphic order oracle",
 }
-for i in (3, 4, 5, 6, 8, 9, 13, 14, 15, 16, 17):
-    NOT_APPLICABLE.append({"property_id": "C%02d" % i, "reason": "monitor not built yet (work in progress; see DESIGN.md section 2)"})
+TEXTS["C03"] = {
+    "text": "Hostile call sequences through every public entry point and every compiled container pair (exact-fit allocations, so that a "
+            "sanitizer red zone or Miri allocation bound is flush against the last row) run under AddressSanitizer, a debug-assertion build "
+            "(overflow checks, debug_assert!, std's unsafe-precondition checks), Miri with Tree Borrows, and the H1 hook that asserts the "
+            "window-inside-source invariants before each kernel; coefficient windows of 10^5+ geometries up to 65 535 per side are checked "
+            "without pixel data through the H2 accessor. Panics are tolerated only for custom kernels whose H1 event shows sum|w| >= 4.",
+    "design_ref": "DESIGN.md section 2, C03",
+    "note": "Sanitizers and Miri judge only executed paths; intra-allocation over-reads are visible through exact-fit placement and the "
+            "H1 invariant only. Known finding D13 (sibling &mut views of split_by_*_mut) is reported as KNOWN-FINDING. Miri's 1-aligned Vec<u8> "
+            "makes Image::new of 16/32-bit types unusable there (artefact, avoided by the harness). NEON/WASM not executed.",
+    "technique": "AddressSanitizer + Miri (Tree Borrows) + debug-assertion build over hostile generated workloads, invariant hook on coefficient windows",
+}
+TEXTS["C04"] = {
+    "text": "Every rectangle (left, top, width, height) up to N+2 on every image up to NxN is passed to the six cropped-view constructors "
+            "(exhaustive), plus a u32 boundary pool, 2*10^5 hostile f64 crop boxes through resize, and nine buffer constructors with lengths "
+            "and alignments around the requirement and sizes near 2^31/2^32 over short buffers; the outcome must equal an exact predicate "
+            "and every accepted view must expose exactly its rectangle of identity tags. Run on the optimised and the debug-assertion build.",
+    "design_ref": "DESIGN.md section 2, C04",
+    "note": "Zero-area boxes and empty buffers may be accepted or rejected (the property is silent) but never panic. f64 boxes whose exact "
+            "and f64-rounded sums disagree (TwoSum) accept either outcome.",
+    "technique": "runtime monitoring with an exact-arithmetic acceptance predicate, exhaustive over small geometry",
+}
+TEXTS["C05"] = {
+    "text": "Two-run sentinel differencing: each call is made twice over destination backing stores pre-filled with complementary patterns; "
+            "a stale pixel differs between the runs, a stray write changes a sentinel outside the rectangle, a failed or zero-sized call must "
+            "leave everything untouched, the source is hashed before/after. Covers resize, alpha, mapper and change_type calls through all "
+            "container pairs and placements, three back-ends, rayon pools of 1/2/3/8 threads, and an ASan build.",
+    "design_ref": "DESIGN.md section 2, C05",
+    "note": "SuperSampling multiplicity 0 is outside the property (m >= 1) and not generated here.",
+    "technique": "runtime monitoring with two-pattern sentinel buffers",
+}
+TEXTS["C06"] = {
+    "text": "All 65 536 8-bit (colour, alpha) pairs at every lane of rows of length 1..40 (exhaustive, every run) and, in the thorough tier, all "
+            "2^32 16-bit pairs are pushed through multiply/divide on three back-ends and four entry points and compared with exact integer "
+            "arithmetic (round-half-up product; floor/ceil quotient saturated at max; a=0 -> 0; alpha unchanged); float results must equal "
+            "single IEEE operations; unsupported pixel types must be rejected.",
+    "design_ref": "DESIGN.md section 2, C06",
+    "note": "Quick tier samples the 16-bit space (special alphas/colours exhaustively + random blocks).",
+    "technique": "runtime monitoring against an exact integer-arithmetic oracle, exhaustive for 8-bit (and 16-bit in thorough)",
+}
+TEXTS["C08"] = {
+    "text": "Resizes and alpha operations are executed in thread pools of 2..32 threads (and more threads than rows) with seeded jitter at "
+            "band starts and compared bit for bit with the 1-thread run; strips up to 300 000 pixels long and 10^6 size pairs up to 2^32-1 "
+            "exercise the band-count arithmetic; the H4 hook reports the (axis, parts) splits and distinct schedules actually observed; Miri "
+            "with the race detector runs multi-band scenarios, ThreadSanitizer in the thorough tier.",
+    "design_ref": "DESIGN.md section 2, C08",
+    "note": "Schedules are sampled, not enumerated. Known finding D13 (Miri retag race / Tree Borrows violation in column bands) is reported "
+            "as KNOWN-FINDING; the same scenario with the borrow tracker off must be race-free.",
+    "technique": "runtime differential monitoring across thread counts with schedule jitter, Miri race detector, ThreadSanitizer (thorough)",
+}
+TEXTS["C09"] = {
+    "text": "Random histories of 40-200 operations (all pixel sizes, growing/shrinking images, alpha on/off, erroring calls, reset, clone, "
+            "back-end switches) on long-lived Resizers; every call is compared bit for bit with the same call on a fresh Resizer. The H3 "
+            "scratch hook proves that reuse without growth, growth and the misaligned-head path of align_to_mut (under Miri) were executed.",
+    "design_ref": "DESIGN.md section 2, C09",
+    "note": "Histories are sampled. The misaligned-head path is only reachable where Vec<u8> is not over-aligned (Miri).",
+    "technique": "runtime history differential (reused vs fresh object) with scratch-buffer event log",
+}
+TEXTS["C13"] = {
+    "text": "The same logical resize or alpha operation is executed through plain typed images and through each compiled container pair "
+            "(10 source kinds x 7 destination kinds, typed and dynamic entry points) at random placements inside larger parents; the "
+            "destination pixels must be bit-identical. Also under ASan.",
+    "design_ref": "DESIGN.md section 2, C13",
+    "note": "19 of the 70 (source kind, destination kind) pairs are compiled (every source kind with a plain destination, a plain source "
+            "with every destination kind, and the matching special pairs); the rest would multiply compile time without new code paths.",
+    "technique": "runtime differential monitoring across container kinds and memory layouts",
+}
+TEXTS["C14"] = {
+    "text": "Exhaustive enumeration of every (start, size, parts) on every view size up to 8x8 (20x20 thorough) for seven view kinds and both "
+            "axes, with split-of-split: None exactly when the property says so; parts in order, sizes differing by at most one, each exposing "
+            "exactly its band of identity tags; mutable parts write an index-dependent increment and the parent is read back: every band "
+            "pixel incremented exactly once, nothing else changed.",
+    "design_ref": "DESIGN.md section 2, C14",
+    "note": "Pixel-level exactly-once is what is decided here; reference-level aliasing of sibling parts is judged by Miri under C03 (known finding D13).",
+    "technique": "exhaustive runtime enumeration with identity tags and write/read-back through the parent",
+}
+TEXTS["C15"] = {
+    "text": "CropBox::fit_src_into_dst_size is called on all size quadruples <= 24 and 10^7 random quadruples up to 65 535 biased to "
+            "near-equal aspect ratios; the returned box is checked to be inside the source exactly as the validator judges it, to have the "
+            "destination aspect ratio, to span one dimension and to honour the clamped centering; 4*10^4 resizes with fit_into_destination "
+            "must not fail.",
+    "design_ref": "DESIGN.md section 2, C15",
+    "note": "NaN centering excluded as the property states.",
+    "technique": "runtime monitoring of a pure function with an arithmetic oracle, exhaustive for small sizes",
+}
+TEXTS["C16"] = {
+    "text": "Every table entry of both mappers, both directions and all four depth pairs is read through the public API (all component "
+            "values at every component position, 1..4 components, two-image and in-place) and compared with the f64 transfer function; "
+            "monotonicity, endpoints, alpha depth conversion at every row position, sRGB 8->16->8 identity and rejection of mismatched "
+            "arguments are checked. Exhaustive.",
+    "design_ref": "DESIGN.md section 2, C16",
+    "note": "A neighbouring integer is accepted within 1e-4*max of a rounding tie because the tables are built in f32.",
+    "technique": "exhaustive runtime enumeration against an f64 transfer-function oracle",
+}
+TEXTS["C17"] = {
+    "text": "All 43 supported conversions: integer sources exhaustively, I32/F32 sources on boundary and 6*10^4 random values per block; "
+            "monotone, nominal endpoints, saturation of out-of-range floats, widen-then-narrow identity, rejection of mismatched images.",
+    "design_ref": "DESIGN.md section 2, C17",
+    "note": "Known finding D14 (U8/U16 -> I32 maximum not mapped to i32::MAX) is reported as KNOWN-FINDING; any other endpoint failure is a violation.",
+    "technique": "runtime monitoring with order/endpoint oracles, exhaustive for integer sources",
+}
